@@ -15,6 +15,7 @@ import r_encbound
 import r_meta
 import r_scheme
 import r_wire
+import r_ladder
 import witness
 
 
@@ -419,7 +420,28 @@ def c14(facts, tier):
     return rep
 
 
+def c13(facts, tier):
+    rep = Report("C13", tier, facts,
+                 "R-LADDER on HeContext::validate (early returns carry a non-Success error, nothing follows an error store "
+                 "but return, every ErrorType variant is produced, unwraps are dominated by their tests, parameters_set is "
+                 "matches!(error, Success)); the precondition-to-guard chain (all-pairs coprimality refusal in "
+                 "RNSBase::new; refusal propagation validate <- create_ntt_tables <- NTTTables::new <- "
+                 "try_minimal_primitive_root <- try_primitive_root with the 2N | q-1 refusal); identifier recomputation "
+                 "(compute_parms_id reads every hashed field, every writer of a hashed field recomputes, nothing "
+                 "nondeterministic reachable) and the chain construction loops' termination (R-LOOP on context.rs).",
+                 "that accepted parameters satisfy the mathematics as values (e.g. NTTTables::new succeeding implies "
+                 "q = 1 mod 2N), collision freedom of the hash, primality of generated moduli, panic freedom of the "
+                 "whole constructor tree, equality of precomputed constants with their definitions.")
+    r_ladder.run_validate(facts, rep)
+    r_ladder.run_chain(facts, rep)
+    r_ladder.run_ident(facts, rep)
+    n_loops, _ = r_loop.run(facts, rep, scope_files={"src/context.rs", "src/modulus.rs", "src/encryption_parameters.rs"},
+                            level_walk=False)
+    return rep
+
+
 CHECKS = {
+    "C13": c13,
     "C14": c14,
     "C18": c18,
     "C20": c20,
